@@ -194,7 +194,8 @@ def gen_format(rng, kind, xtype, n, misuse, own_only=False):
     if rng.random() < 0.06:
         return None
     pool = []
-    mats = ["S", "Z", "Y"] + (["T", "U", "H", "G", "A", "B"] if n == 2 else [])
+    mats = ["S", "Z", "Y"] + (["T", "U", "H", "G", "A", "B"]
+                              if n == 2 or misuse else [])
     for L in mats:
         for c in coords_all:
             if c == "dB" and L not in ("S", "T", "U") and not misuse:
@@ -224,9 +225,9 @@ def gen_format(rng, kind, xtype, n, misuse, own_only=False):
 
 def gen_precision(rng):
     r = rng.random()
-    if r < 0.12:
+    if r < 0.10:
         return None
-    if r < 0.30:
+    if r < 0.32:
         return MAXP
     return int(rng.integers(1, 18))
 
@@ -685,10 +686,10 @@ def half_ulp(x, p):
 
 
 def cmp_num(num, x, delta, p):
-    """None if the token agrees with x printed to p significant digits"""
-    if p == MAXP and not num.hex:
-        return "token %s is not hexadecimal at maximum precision" % num.text
-    tol = half_ulp(x, p) * (1 + 1e-9) + delta + 4 * EPS * abs(x)
+    """None if the token agrees with x printed to p significant digits
+    (maximum precision: with x itself, whatever the spelling)"""
+    tol = half_ulp(x, p) * (1 + 1e-9) + delta + \
+        (0.0 if p == MAXP else 4 * EPS * abs(x))
     if not abs(num.v - x) <= tol:
         return "printed %s, value %r (allowed error %.3g, precision %s)" % (
             num.text, x, tol, p)
@@ -700,8 +701,6 @@ def cmp_angle(num, x, delta, dp, is_zin):
         return None
     if dp == MAXP:
         tol = delta + 1e-12
-        if not num.hex:
-            return "angle %s is not hexadecimal at maximum precision" % num.text
     else:
         if num.dec is None:
             return "angle %s is not printed in fixed notation" % num.text
@@ -789,6 +788,15 @@ def judge_case(c, res, text, part):
                               (c.format_text or "").lower()))
         return
     bump("accepted")
+    bump("cov:ports:%d" % c.n)
+    bump("cov:type:" + c.xtype)
+    bump("cov:z0:" + c.zkind)
+    bump("cov:name:%s/filetype:%s" % (c.ext or "(none)",
+                                      FT_NAMES.get(c.ft, "unset")))
+    bump("cov:fprecision:%s" % c.fp)
+    bump("cov:dprecision:%s" % c.dp)
+    bump("cov:magnitude:" + ("1" if c.scale == 1.0 else
+                             "1e%+03d" % (3 * round(math.log10(c.scale) / 3))))
     allowed = expected_kinds(c.ext, c.ft, c.n, c.z0, c.fz0)
     blobs = []
     for nm, key in (("save", "read_save"), ("fsave", "read_fsave")):
@@ -1202,9 +1210,13 @@ def main():
     forms = {k[5:]: v for k, v in chk.counters.items() if k.startswith("form:")}
     lforms = {k[10:]: v for k, v in chk.counters.items()
               if k.startswith("load_form:")}
+    cov = {}
     for k in list(chk.counters):
         if k.startswith("form:") or k.startswith("load_form:"):
             del chk.counters[k]
+        elif k.startswith("cov:"):
+            _, dim, val = k.split(":", 2)
+            cov.setdefault(dim, {})[val] = chk.counters.pop(k)
     chk.finish(
         rule="one evaluation = one object (all parameter types, 1..6 ports, "
              "1..4 frequencies, z0 equal/unequal/complex/per-frequency, value "
@@ -1234,7 +1246,8 @@ def main():
             "file; the tolerance is half a unit of the last printed decimal",
             "a list holding only IL/RL/VSWR carries no complex data: loading "
             "it back is not judged"],
-        extra=dict(file_forms_judged=forms, load_forms_judged=lforms))
+        extra=dict(file_forms_judged=forms, load_forms_judged=lforms,
+                   accepted_cases_by=cov))
 
 
 if __name__ == "__main__":
